@@ -919,6 +919,12 @@ class PipelineComponent(Component):
             finally:
                 sys.stdout = real
         ps = implrun.M("processor_sim")
+        import inspect
+        run = getattr(ps, "run", None)
+        try:
+            inspect.signature(run).bind(None, None)
+        except (TypeError, ValueError):
+            return None          # no two-argument run(): this tree is exercised through the real command line only
         buf = io.StringIO()
         logging.disable(logging.CRITICAL)
         if os.path.getsize(ap) % 5 == 0:
@@ -969,9 +975,8 @@ class PipelineComponent(Component):
                 f.write("".join(ln if ln.endswith("\n") else ln + "\n" for ln in case["lines"]))
             env = dict(os.environ)
             env["PYTHONPATH"] = os.path.join(engine.HERE, "compat") + os.pathsep + os.path.join(implrun.REPO, "src")
-            if case.get("mode") == "inproc":
-                p = self._run_inproc(yp, ap)
-            else:
+            p = self._run_inproc(yp, ap) if case.get("mode") == "inproc" else None
+            if p is None:
                 cmd = ["/venv/bin/python", os.path.join(implrun.REPO, "src", "processor_sim.py"), "--processor", yp, ap]
                 p = subprocess.run(cmd, capture_output=True, text=True, env=env, timeout=120)
                 if p.returncode != 0:
